@@ -19,6 +19,7 @@ CODES = {
     "MUL32": "num32:multiplier:float-default-format",
     "F24": "fixed-point:float24-precision",
     "VLUNL": "valuelist:unlisted-number-not-writable",
+    "PAIRCTX": "pair:field-text-depends-on-preceding-field",
     "PINOCT": "PIN:leading-zero-parsed-as-octal",
     "MIN24": "time3:minute-24-with-seconds-rejected-on-write",
     "T24SS": "time3:24:00:ss-accepted-on-write",
@@ -28,7 +29,8 @@ CODES = {
 
 
 def groups(ctx):
-    g = ["dates.0/2", "dates.1/2", "days", "num34", "times", "num1", "bits", "lists", "tem", "strings"]
+    pairs = ["pairs"] if ctx.pid == "C05" else []
+    g = ["dates.0/2", "dates.1/2", "days", "num34", "times", "num1", "bits", "lists", "tem", "strings"] + pairs
     if ctx.thorough:
         return g[:4] + ["num2.%d/10" % k for k in range(10)] + g[4:]
     return g[:3] + ["num2.0/2", "num2.1/2"] + g[3:]
@@ -48,6 +50,10 @@ def describe(r):
     if r.get("v"):
         d += ",list#%d" % r["v"]
     s = "%s fmt=%d bytes=%s -> rc=%d text=%r" % (d, r.get("f", 0), " ".join("%02x" % x for x in r["b"]), r["rc"], _txt(r["o"]))
+    if r.get("f") in (5, 6):
+        s = "message of two fields %s%s,div=%d then %s: data=%s -> rc=%d text=%r | first alone rc=%d %r | probe alone rc=%d %r" % (
+            r["ft"], (":%d" % r["fl"]) if r["fl"] else "", r["fd"], d, " ".join("%02x" % x for x in r["b"]), r["rc"],
+            _txt(r["o"]), r["frc"], _txt(r["fo"]), r["prc"], _txt(r["po"]))
     if "rc2" in r:
         s += " | encode rc=%d bytes=%s | decode rc=%d text=%r | encode rc=%d bytes=%s" % (
             r["rc2"], " ".join("%02x" % x for x in r["b2"]), r["rc3"], _txt(r["o3"]), r["rc4"],
@@ -69,6 +75,8 @@ def generic_key(pid, r, kind):
                 "strsub": "wrong-text"}.get(kind, kind)
     else:
         what = kind
+    if r.get("f") in (5, 6):
+        return "%s:pair:%s-then-%s%s:%s" % (pid, r["ft"], r["t"], "+json" if r["f"] == 6 else "", what)
     t = r["t"] + ("+div" if r.get("d") else "") + ("+list" if r.get("v") else "") + ("+json" if r.get("f") in (1, 4) else "")
     return "%s:%s:%s" % (pid, t, what)
 
